@@ -190,6 +190,19 @@ def gen(rng, tier, ctx):
                     d_["tag"] = d_["tag"] + "+aliased-rows"
             except Exception:
                 pass
+    for d_ in descs:
+        if rng.random() < 0.12:
+            # the same description in other containers the solver accepts as well (a set of final states,
+            # tuples of rewards / players / rows)
+            g_ = dec(d_["desc"])
+            try:
+                fld = rng.choice(["final_states", "final_states", "rewards", "players", "transition_list"])
+                if isinstance(g_.get(fld), list):
+                    g_[fld] = set(g_[fld]) if (fld == "final_states" and rng.random() < 0.6) else tuple(g_[fld])
+                    d_["desc"] = enc(g_)
+                    d_["tag"] = d_["tag"] + "+%s-as-%s" % (fld, type(g_[fld]).__name__)
+            except Exception:
+                pass
     n_ops = rng.randint(3, 25 if tier == "thorough" else 14)
     opl = []
     handles = []
@@ -208,6 +221,9 @@ def gen(rng, tier, ctx):
             op = {"op": "solve_fresh", "d": rng.randrange(nd), "prune": rng.random() < 0.65}
         elif r < 0.76:
             op = {"op": "toggle", "h": rng.choice(handles)}
+        elif r < 0.775 and handles:
+            # two threads of the caller solve through the same object at the same time
+            op = {"op": "solve_threads", "h": rng.choice(handles), "n": rng.choice([2, 2, 3])}
         elif r < 0.79:
             # the caller edits its own description in place (it is the caller's data); objects built from it
             # earlier and fresh ones now hold the same - new - description
@@ -437,6 +453,47 @@ def execute(spec, w, ctx):
             w.fired("caller-edits-returned-value", ops.scribble(out["value"], ops.container_ids(live)))
         return None
 
+    def do_solve_threads(i_op, op, obj, d):
+        """n threads of the caller call solve() on the same object at the same time (scheduled by the simulator's
+        thread seam: one runs at a time, pre-empted at seeded lines of the solver)."""
+        import threading
+        prune = bool(getattr(obj, "prune_states", True))
+        r = ref(d, prune)
+        if not usable(r) or (r["steps"] or 0) > 60000:
+            return None
+        n = int(op.get("n", 2))
+        results = [None] * n
+
+        def worker(k):
+            try:
+                results[k] = {"status": "ok", "value": enc(obj.solve())}
+            except ValueError as e:
+                results[k] = {"status": "exc", "etype": "ValueError", "emsg": str(e)}
+            except Exception as e:  # noqa
+                results[k] = {"status": "exc", "etype": type(e).__name__, "emsg": str(e)}
+
+        def thunk():
+            ts = [threading.Thread(target=worker, args=(k,), name="caller-%d" % k) for k in range(n)]
+            for t in ts:
+                t.start()
+            for t in ts:
+                t.join()
+            return None
+        out = w.run_op(thunk, {"step_cap": 60 * n * (r["steps"] or 0) + 400000, "fine": True})
+        for _ in range(n):
+            note_solve(d, prune)
+        w.fired("caller-threads-solving-one-object", n)
+        events.append([i_op, "solve_threads", d, prune, n, out["status"], [x and x.get("status") for x in results]])
+        if out["status"] != "ok":
+            return viol("I10.2", i_op, "%d caller threads solving description %d through one object: did not finish: %s %s" % (
+                n, d, out["status"], out.get("etype") or out.get("info") or ""), "outcome-kind-differs")
+        for k, x in enumerate(results):
+            if x is None or not ops.same_result(x, r):
+                return viol("I10.2", i_op, "%d caller threads solving description %d (%s, prune=%s) through one object at the same time: "
+                            "thread %d got %s, the pristine reference is %s" % (n, d, spec["descs"][d].get("tag"), prune, k,
+                                                                              _show(x) if x else None, _show(r)), "result-differs")
+        return None
+
     def do_quiet(i_op, op):
         """The same small description solved `times` times, back to back, in this process."""
         d, prune, times = op["d"], bool(op["prune"]), int(op["times"])
@@ -526,6 +583,11 @@ def execute(spec, w, ctx):
             obj, d = handles[op["h"]]
             out = w.run_op(lambda: getattr(obj, op["what"])(), {"step_cap": 10 ** 7})
             events.append([i_op, "aux", op["what"], out["status"], out.get("etype")])
+        elif kind == "solve_threads":
+            if op["h"] not in handles:
+                continue
+            obj, d = handles[op["h"]]
+            v = do_solve_threads(i_op, op, obj, d)
         elif kind == "quiet":
             v = do_quiet(i_op, op)
         elif kind == "edit":
